@@ -40,6 +40,7 @@ type Up4Gen struct {
 	Wide bool
 	// ForceSessQer / OneFlow: every session has a session QER / exactly one flow (crowds that hold many meter cells)
 	ForceSessQer bool
+	OneFilter    bool   // one flow per session, always with the generator's first application filter
 	SymQer       bool   // flow QERs have the same maximum rate in both directions
 	BeforeDelete func() // called before every Session Deletion Request the generator sends (e.g. to arm a write failure)
 	ForceFwd     bool   // sessions forward downlink traffic to a gNB from their establishment on
@@ -276,6 +277,13 @@ func (g *Up4Gen) MarkAssoc(peer string) { g.assoc[peer] = true }
 
 func (g *Up4Gen) peerName(i int) string { return fmt.Sprintf("p%d", g.PeerBase+i+1) }
 
+// ShareFiltersOf makes the generator use the application filters (and gNBs) of another one: sessions of different
+// associations then share applications entries and tunnel peers.
+func (g *Up4Gen) ShareFiltersOf(o *Up4Gen) {
+	g.flows = o.flows
+	g.gnbs = o.gnbs
+}
+
 // Disjoint gives the generator its own block of UE addresses and TEIDs (generators running side by side).
 func (g *Up4Gen) Disjoint(k int) {
 	g.ueCtr = 0x0AF90000 + uint32(k)<<12
@@ -408,6 +416,14 @@ func (g *Up4Gen) newFlow(s *usess, first bool) *uflow {
 		f.flow = free[g.R.Intn(len(free))]
 	} else if g.R.Intn(3) == 0 {
 		f.flow = g.R.Intn(len(g.flows))
+	}
+
+	if g.OneFilter { // every session's (single) flow uses the same application filter
+		if !first {
+			return nil
+		}
+
+		f.flow = 0
 	}
 
 	f.byApp = g.UsePfd && g.R.Intn(2) == 0
